@@ -11,6 +11,7 @@ import (
 	"time"
 
 	"github.com/ozanh/ugo"
+	ujson "github.com/ozanh/ugo/stdlib/json"
 	"github.com/ozanh/ugo/token"
 
 	"verif/internal/fw"
@@ -273,6 +274,22 @@ func run6(c *fw.Ctx) {
 			one(c, fmt.Sprintf("cyclic expr=%s ctx=%s", e, cx.name), src, nil, kind{name: "cyclic", goPanic: true}, cx, probeBC, true)
 		}
 	}
+	// the json module walks values too: it detects cycles through arrays, maps and pointers; an encoderOptions object
+	// (json.Quote, json.NoQuote, ...) can hold itself, directly or through a container
+	cyco := "json := import(\"json\"); cyco := json.Quote(1); cyco.Value = cyco; cyco2 := json.NoEscape(1); cyca := [cyco2]; cyco2.Value = cyca; "
+	curMM = ugo.NewModuleMap().AddBuiltinModule("json", ujson.Module)
+	for _, e := range []string{"json.Marshal(cyc)", "json.Marshal(cycm)", "json.Marshal(cyco)", "json.Marshal(cyca)", "json.Marshal(cyco2)", "json.MarshalIndent(cyco, \"\", \" \")"} {
+		for _, cx := range contexts[:2] {
+			if !c.Next() {
+				continue
+			}
+			c.Checkpoint()
+			mainBody, _ := cx.wrap("x := " + e)
+			src := pre + cyc + cyco + mainBody + "; L(\"after\"); return \"done\""
+			one(c, fmt.Sprintf("cyclic expr=%s ctx=%s", e, cx.name), src, nil, kind{name: "cyclic", goPanic: true}, cx, probeBC, true)
+		}
+	}
+	curMM = nil
 	// literal that overflows the value stack by itself
 	c.Family("literal-overflow", "array/map literals and call arguments of n non-constant elements, n around the 2048-slot limit, in every handler context")
 	for _, n := range []int{2030, 2040, 2044, 2045, 2046, 2047, 2048, 2049, 2100, 3000} {
@@ -374,12 +391,15 @@ func runOn(vm *ugo.VM, args []ugo.Object) (r result) {
 
 var errBlocked = errors.New("blocked: Run does not return and does not react to Abort")
 
+// curMM, when set, is the module map of the case being run (builtin modules; overrides mods).
+var curMM *ugo.ModuleMap
+
 func one(c *fw.Ctx, key, src string, mods map[string]string, k kind, cx context, probeBC []*ugo.Bytecode, nearLimit bool) {
 	if c.Skip(key) {
 		return
 	}
 	c.Mark(key)
-	bc, err, pan := run.Compile(src, run.Options{Modules: mods})
+	bc, err, pan := run.Compile(src, run.Options{Modules: mods, ModuleMap: curMM})
 	if pan != "" {
 		c.Violation(key, "compiler panics: "+pan, nil)
 		return
